@@ -218,6 +218,49 @@ def already_declared_not_written(kind: int, s: int) -> bool:
     return fin(cs is None and fs.writes == [] and fs.files[path] == text)
 
 
+def second_run_setup_cfg(deps: List[int], inline: bool, final_newline: bool) -> bool:
+    """Parser + writer round trip on setup.cfg (real SetupCfgParser, real SetupCfgWriter): after a run added the
+    requirement, the manifest still parses, lists every old requirement and the new one exactly once, and a
+    second run (re-parse, write again) adds nothing.
+    pre: 1 <= len(deps) <= 2
+    post: _
+    """
+    import codemodder.project_analysis.file_parsers.setup_cfg_file_parser as scp
+
+    lines, (b0, b1), dep_lines = _cfg(0, deps, False, inline)
+    text = "\n".join(lines) + ("\n" if final_newline else "")
+    path = "/d/setup.cfg"
+    fs = FakeFS({path: text})
+    cw.open = fs.open
+    _CP.fs = fs
+    cw.configparser = _CP
+    scp.configparser = _CP
+    try:
+        store1 = scp.SetupCfgParser(Path("/d"))._parse_file(Path(path))
+        cs1 = DependencyManager(store1, Path("/d")).write([DefusedXML], False)
+        after1 = deep_realize(fs.files[path])
+        store2 = scp.SetupCfgParser(Path("/d"))._parse_file(Path(path))
+        cs2 = DependencyManager(store2, Path("/d")).write([DefusedXML], False)
+        after2 = deep_realize(fs.files[path])
+    finally:
+        import configparser
+
+        cw.configparser = configparser
+        scp.configparser = configparser
+        del cw.open
+    if cs1 is None:
+        return False
+    with NoTracing():
+        import configparser
+
+        cp = configparser.ConfigParser()
+        cp.read_string(after1)
+        parsed = cp["options"]["install_requires"]
+        got = [x.strip() for x in parsed.replace(",", "\n").split("\n") if x.strip()]
+        ok = got.count("defusedxml==0.7.1") == 1 and all(d.split(">")[0] in [g.split(">")[0] for g in got] for d in dep_lines)
+    return fin(ok and cs2 is None and after2 == after1)
+
+
 class _RM:
     def __init__(self, stores):
         self.package_stores = stores
@@ -305,6 +348,10 @@ def warmup():
             setup_cfg(sb, [0], False, True, False)
         except Exception:
             pass
+    try:
+        second_run_setup_cfg([0, 1], False, True)
+    except Exception:
+        pass
     already_declared_not_written(0, 0)
     already_declared_not_written(1, 1)
     notice(2, False, True, True)
@@ -327,6 +374,7 @@ SPEC = {
         "DependencyWriter.write / add / build_changes",
         "RequirementsTxtWriter.add_to_file",
         "SetupCfgWriter.add_to_file / build_new_lines",
+        "SetupCfgParser._parse_file (round trip with the writer)",
         "CodemodExecutionContext.process_dependencies / add_description",
         "dependency.build_dependency_notification / build_failed_dependency_notification",
     ],
@@ -346,6 +394,7 @@ SPEC = {
         Xh("requirements_txt", 300, 900),
         Xh("setup_cfg", 400, 1500),
         Xh("already_declared_not_written", 150, 300),
+        Xh("second_run_setup_cfg", 200, 400),
         Xh("notice", 150, 300),
         Xh("planted_duplicate_append", 60, 120, twin=False, expect="refuted"),
     ],
